@@ -1,33 +1,104 @@
 """Tie C: a fail-closed translator from a small subset of Python to Gallina.
 
-It turns the *source text* of selected calgebra functions (straight-line integer / Optional code,
-`if`/`elif`/`else`, conditional expressions, `max`/`min`, one `for` loop over a stream with
-`yield` / `continue` / `break` / `return`) into Gallina definitions, written to
-coq/Gen/Source.v on every run.  Proofs/GenEq.v proves, for ALL inputs, that each generated
-definition equals the hand-written model function the property theorems speak about — so
-those theorems are re-checked against what the code says now.  Anything outside the subset
-raises Unsupported (the generated file then lacks the definition and the equivalence proof
-fails: a broken proof obligation, never a silent pass).
+It turns the *source text* of selected calgebra functions into Gallina definitions, written to
+coq/Gen/Source.v on every run.  Proofs/GenEq*.v prove, for ALL inputs, that each generated
+definition equals the hand-written model function the property theorems speak about — so those
+theorems are re-checked against what the code says now.  Anything outside the subset raises
+Unsupported (the generated file then lacks the definition and the equivalence proof fails: a
+broken proof obligation, never a silent pass).
+
+The subset: straight-line integer / Optional code, `if`/`elif`/`else`, conditional expressions,
+`max`/`min`, `x in list`, comparisons of an enum-typed value with string literals, list
+comprehensions / generator expressions (-> map/filter), `reversed`, `list`, `len`, `range`,
+`xs[i]`, `bisect.bisect_right(xs, v, key=lambda ...)`, `x += e`, one loop per function (a `for`
+over a stream or a fuelled `while`) whose body may `yield` / `continue` / `break` / `return`,
+`yield from`, `raise E(...)` before anything was yielded, calls of functions / methods the spec
+declares (they become parameters of the generated definition), and *effect statements*
+(`self._sink.add(x)`, `xs.append(x)`, `self.attr = e`): updates of declared state variables.
+
+Kinds of function (spec["kind"]):
+   expr   returns a value            result type T
+   gen    a generator                result type  list T   (what it yields, in order)
+   proc   mutates declared state     result type  the tuple of the final values of spec["state"]
+With spec["res"] = True the result is wrapped in  res  (Model/Loop.v):
+   RDone v | RRaise exception | RFuel (a fuelled `while` ran out of fuel) | RSkip (a branch the
+   spec declares untranslated was reached) — never a normal-looking value for an abnormal exit.
+`raise` and `while` are only accepted in such functions; a function with a `while` gets a leading
+parameter (fuel : nat).
 
 Types: Z (int), OZ (int | None), B (bool), IVL (an Interval), OIVL (Interval | None),
-LIST (a stream of Intervals), NONE (the literal None before unification), U (unit).
+LIST (= L:IVL, a stream of Intervals), L:T (a list/stream of T), O:T (T | None, only tested
+against None), NONE (the literal None before
+unification), U (unit), plus the types a spec declares (spec["types"]: name -> Coq type;
+spec["tyvars"]: implicit type parameters; spec["enums"]: name -> (eqb, {string literal: constructor})).
+A type is never guessed: an expression whose type is not determined is Unsupported.
 
-Translation scheme for statements (continuation = "the rest of the block", duplicated into both
-branches of an `if`; blocks are small):
+Optional values.  `if x is None` / `x if x is not None else d` on a plain NAME of option type
+becomes a `match` that rebinds the name at the underlying type.  Any other None test (on an
+attribute, or inside `and` / `or` / `not`) is tracked as a flow fact "this expression is not
+None here"; an Optional may be used where an int is required ONLY under such a fact (then
+`ozd e`), or if the spec lists the expression in "assume_not_none" (an explicit assumption the
+equivalence theorem has to carry as a hypothesis) — otherwise Unsupported.  `a == b` / `a != b`
+on Optionals compare as options (oZ_eqb); `x in xs` with x Optional is false for None.
+
+Names.  The Python parameters the spec does not mention are not in scope.  Parameters of the
+generated definition that are not Python parameters (self attributes, abstracted callees, state
+variables) can never be bound by a Python local: an assignment to a name that would print as
+one of them, as a Coq keyword substitute (`end_`), or as a global the generated text uses, is
+Unsupported.
+
+Translation scheme for statements (continuation = "the rest of the block"):
    x = e ; rest              let x := e in rest
-   if c: A else: B ; rest    if c then [A; rest] else [B; rest]
-   if x is None: A else: B   match x with None => [A; rest] | Some x => [B; rest] end   (x refined)
+   x += e ; rest             let x := x + e in rest
+   if c: A else: B ; rest    if c then [A; rest] else [B; rest]           (rest duplicated), or, when
+                             A and B only assign (no yield/continue/break/return/raise) and rest is
+                             not empty, the join form
+                                let '(v1, .., vn) := (if c then [A; (v1..vn)] else [B; (v1..vn)]) in rest
+                             over the variables assigned in A or B that are defined on every path
+   if x is None: A else: B   match x with None => [A; rest] | Some x => [B; rest] end   (x a name)
    yield e ; rest            let out := out ++ [e] in rest
-   continue / end of body    (out, state, Cont)
-   break                     (out, state, Brk)
-   return                    (out, state, Ret)
-   end of function           out
-A `for` loop becomes  run_for body post state stream  (Model/Loop.v), the state being the tuple of
-variables assigned in the body that exist before the loop.
+   yield from e ; rest       let out := out ++ e in rest
+   effect statement          let <state var> := <update> in rest
+   raise E(..)               RRaise E
+   end of function           out            (gen) | the state tuple (proc)
+   return [e]                out (gen) | e (expr) | the state tuple (proc)
+Loops (Model/Loop.v), state = the tuple of variables assigned in the body that exist before it:
+   gen:   for x in s: BODY ; rest     run_for (fun state x => BODY) (fun state => rest) state s
+          while c: BODY ; rest        run_while fuel (fun state => c) (fun state => BODY) (fun state => rest) state
+          BODY ends in (out, state, Cont | Brk | Ret)
+   expr / proc:
+          for x in s: BODY ; rest     iter_for (fun state x => BODY) (fun state => rest) state s
+          while c: BODY ; rest        iter_while fuel (fun state => c) (fun state => BODY) (fun state => rest) state
+          BODY ends in SCont state | SBrk state | SRet <result of the function>
+          `try: return f(..) except E: H` with f declared "raises" (returning an option):
+                                      match f .. with Some v => return v | None => H end
+          (a bare `raise` in H re-raises E; a call declared "raises" is Unsupported anywhere else)
+          `try: <effect> except E: H` with the effect declared raises=(E, <test that it succeeds>):
+                                      if <test> then [effect; rest] else [H; rest]
+Containers: a value of a spec["tuples"] type is a left-nested Coq product, t[k] (k a literal) its
+component; `a, _, c = pop(container)` / `x = pop(container)` for a callee in spec["pops"] binds the
+components of the value the spec gives and then updates the state variable holding the container
+(heapq.heappop on the model's sorted list: hd / tl).
+
+What a spec may declare, and what each declaration is trusted for (the equivalence theorems are
+about the generated text *under these readings*):
+   selfattrs   self.<attr> is this parameter of this type
+   calls / methods / attrs / binops
+               a library call or an operation on an abstract type is this parameter (keyword
+               arguments listed under "fixed" must be spelled exactly so in the source)
+   effects / pops
+               a method call statement updates this state variable in this way (library model)
+   assume_not_none
+               this Optional expression is an int wherever it is used as one
+   skip_branches
+               the `if` branches with exactly these tests are not translated: reaching one gives RSkip
+   stop_after_loop
+               only the statements up to and including the first loop are translated
 """
 from __future__ import annotations
 
 import ast
+import re
 from pathlib import Path
 
 
@@ -41,7 +112,19 @@ RESERVED = {"end": "end_", "at": "at_", "in": "in_", "fun": "fun_", "match": "ma
             "as": "as_", "using": "using_", "where": "where_", "left": "left_", "right": "right_",
             "gap": "gap_", "cur": "cur_", "rest": "rest_", "st": "st_", "en": "en_", "pl": "pl_",
             "interval": "interval_", "ivl": "ivl_", "out": "out_", "run_for": "run_for_", "fstart": "fstart_",
-            "fend": "fend_", "ozd": "ozd_", "is_none": "is_none_", "set_span": "set_span_", "mkI": "mkI_"}
+            "fend": "fend_", "ozd": "ozd_", "is_none": "is_none_", "set_span": "set_span_", "mkI": "mkI_",
+            "now": "now_", "cover": "cover_", "sink": "sink_", "heap": "heap_", "fuel": "fuel_",
+            "rev": "rev_", "filter": "filter_", "map": "map_", "length": "length_", "app": "app_",
+            "nat": "nat_", "list": "list_", "option": "option_", "bool": "bool_", "unit": "unit_",
+            "fst": "fst_", "snd": "snd_", "negb": "negb_", "true": "true_", "false": "false_", "tt": "tt_",
+            "Some": "Some_", "None": "None_", "nil": "nil_", "cons": "cons_", "Z": "Z_", "N": "N_"}
+
+# globals the generated text may mention (besides what a spec names): never bindable by a Python local
+EMITTED = {"out1_", "v_", "it_", "oivld", "sub_while", "run_for_o", "run_while", "iter_for", "iter_while", "SCont", "SBrk", "SRet", "Cont", "Brk", "Ret", "RDone", "RRaise",
+           "RFuel", "RSkip", "res", "zmem", "oZ_eqb", "nonempty", "py_index", "zrange", "bisect_right",
+           "Plain", "NEG_INF", "POS_INF", "ValueError", "TypeError", "KeyError", "IndexError", "freq_eqb",
+           "Daily", "Weekly", "Monthly", "Yearly", "sl_add", "sl_remove", "fetch_static", "cov_add", "cov_remove",
+           "heap_push", "ivl", "ctl", "step", "exn"}
 
 COQ_TYPE = {"Z": "Z", "OZ": "option Z", "B": "bool", "IVL": "ivl", "OIVL": "option ivl",
             "LIST": "list ivl", "U": "unit"}
@@ -49,8 +132,15 @@ COQ_TYPE = {"Z": "Z", "OZ": "option Z", "B": "bool", "IVL": "ivl", "OIVL": "opti
 GLOBAL_CONSTS = {"NEG_INF": ("NEG_INF", "Z"), "POS_INF": ("POS_INF", "Z"),
                  "DAY": ("86400", "Z"), "WEEK": ("604800", "Z"), "HOUR": ("3600", "Z"), "MINUTE": ("60", "Z")}
 
+EXCEPTIONS = {"ValueError", "TypeError", "KeyError", "IndexError"}
+
+OPT = {"OZ": "Z", "OIVL": "IVL"}          # option type -> what it holds
+SOME = {v: k for k, v in OPT.items()}     # and back
+
 
 def cname(n):
+    if n.startswith("@"):
+        return n[1:]
     return RESERVED.get(n, n)
 
 
@@ -60,10 +150,22 @@ def ann_type(node):
     table = {"int": "Z", "int|None": "OZ", "bool": "B",
              "Interval": "IVL", "Ivl": "IVL", "IvlOut": "IVL",
              "Interval|None": "OIVL", "Ivl|None": "OIVL", "IvlOut|None": "OIVL",
-             "Iterable[Interval]": "LIST", "Iterable[Ivl]": "LIST", "Iterable[IvlOut]": "LIST"}
+             "Iterable[Interval]": "LIST", "Iterable[Ivl]": "LIST", "Iterable[IvlOut]": "LIST",
+             "list[Interval]": "LIST", "list[Ivl]": "LIST", "list[IvlOut]": "LIST", "list[int]": "L:Z"}
     if s in table:
         return table[s]
     raise Unsupported(f"annotation {s}")
+
+
+def base_name(e):
+    """the name an attribute chain starts from, or None"""
+    while isinstance(e, ast.Attribute):
+        e = e.value
+    return e.id if isinstance(e, ast.Name) else None
+
+
+def is_path(e):
+    return isinstance(e, ast.Name) or (isinstance(e, ast.Attribute) and base_name(e) is not None)
 
 
 class Tr:
@@ -73,26 +175,118 @@ class Tr:
         self.spec = spec
         self.known = known_funcs          # python name -> (coq name, [arg types], ret type)
         self.selfattrs = spec.get("selfattrs", {})       # attr -> (coq param, type)
-        self.calls = spec.get("calls", {})               # unparsed callee -> (coq param, [arg types], ret type)
-        self.item_type = spec.get("item_type", "IVL")
+        self.calls = spec.get("calls", {})               # unparsed callee -> call spec (or a list of them)
+        self.methods = spec.get("methods", {})           # (receiver type, method) -> call spec
+        self.attrs = spec.get("attrs", {})               # (receiver type, attribute) -> (coq function, type)
+        self.binops = spec.get("binops", {})             # (type, op, type) -> (coq function, type)
+        self.effects = spec.get("effects", {})           # unparsed callee -> dict(var, args, update)
+        self.enums = spec.get("enums", {})               # type -> (eqb, {literal: constructor})
+        self.tuples = spec.get("tuples", {})             # type -> [component types] (a left-nested Coq product)
+        self.pops = spec.get("pops", {})                 # unparsed callee -> dict(arg, var, result, update, ret)
+        self.text_exprs = spec.get("text_exprs", {})     # exact source text of an expression -> (coq text, type)
+        self.inline = set(spec.get("inline", []))        # local closures (no parameters) inlined at their calls
+        self.closures = {}
+        self.opt_body = False                            # inside the body of a run_for_o loop
+        self.types = dict(COQ_TYPE)
+        self.types.update(spec.get("types", {}))
+        self.defaults = {"IVL": "(mkI None None Plain)", "Z": "0"}
+        self.defaults.update(spec.get("defaults", {}))
+        self.assume_nn = set(spec.get("assume_not_none", []))
+        self.skip_tests = set(spec.get("skip_branches", []))   # unparsed `if` tests whose branch is not translated
+        self.item_type = spec.get("item_type")           # (older specs) item type of the loop's stream
         self.out_type = spec.get("out_type", "ivl")
+        self.state = list(spec.get("state", []))         # coq parameter names returned by a proc
+        self.res = bool(spec.get("res", False))
+        self.kind = spec["kind"]
+        self.loop_depth = 0
+        self.plain = 0                                   # > 0: inside text that must not produce res values
+
+    # ---------------------------------------------------------------- types
+    def is_type(self, t):
+        return isinstance(t, str) and (t in self.types or (t[:2] in ("L:", "O:") and self.is_type(t[2:])))
+
+    def coq_type(self, t):
+        if t in self.types:
+            return self.types[t]
+        if t[:2] in ("L:", "O:"):
+            inner = self.coq_type(t[2:])
+            return ("list " if t[0] == "L" else "option ") + (inner if " " not in inner else f"({inner})")
+        raise Unsupported(f"type {t}")
+
+    def item_of(self, t):
+        if t == "LIST":
+            return "IVL"
+        if t.startswith("L:"):
+            return t[2:]
+        raise Unsupported(f"{t} is not a list type")
+
+    @staticmethod
+    def is_list(t):
+        return t == "LIST" or t.startswith("L:")
+
+    def same(self, a, b):
+        norm = lambda t: "L:IVL" if t == "LIST" else t
+        return norm(a) == norm(b)
+
+    # ---------------------------------------------------------------- environments
+    # env: python name (or "@state parameter") -> type, plus "$nn": expressions known not to be None
+    # here, "$y": something may have been yielded on this path
+    @staticmethod
+    def nn(env):
+        return env.get("$nn", frozenset())
+
+    def known_some(self, e, env):
+        s = ast.unparse(e)
+        return s in self.nn(env) or s in self.assume_nn
+
+    @staticmethod
+    def with_nn(env, exprs):
+        if not exprs:
+            return env
+        env = dict(env)
+        env["$nn"] = frozenset(env.get("$nn", frozenset()) | set(exprs))
+        return env
+
+    @staticmethod
+    def kill(env, name):
+        """forget the flow facts about a name that is being assigned"""
+        keep = frozenset(s for s in env.get("$nn", frozenset())
+                         if s != name and not s.startswith(name + ".") and not s.startswith(name + "["))
+        env = dict(env)
+        env["$nn"] = keep
+        return env
+
+    def bind(self, env, name, ty):
+        """a Python local gets a (new) value"""
+        c = cname(name)
+        if not name.startswith("@"):
+            if c in self.genparams or c in EMITTED or c in self.spec_names or \
+                    (name in RESERVED.values()) or name.startswith("g_"):
+                raise Unsupported(f"local name {name} would capture a name of the generated text")
+        env = self.kill(env, name)
+        env[name] = ty
+        return env
 
     # ---------------------------------------------------------------- expressions
-    def coerce(self, text, ty, want, what=""):
-        if want is None or ty == want:
+    def coerce(self, text, ty, want, what="", e=None, env=None):
+        if want is None or ty == want or (self.is_list(ty) and self.is_list(want) and self.same(ty, want)):
             return text
-        if ty == "NONE" and want in ("OZ", "OIVL"):
+        if ty == "NONE" and want in OPT:
             return "None"
-        if ty == "Z" and want == "OZ":
-            return f"(Some {text})"
-        if ty == "IVL" and want == "OIVL":
+        if ty in SOME and want == SOME[ty]:
             return f"(Some {text})"
         if ty == "OZ" and want == "Z":
-            return f"(ozd {text})"            # guarded by an earlier None test in the source
+            if e is not None and env is not None and is_path(e) and self.known_some(e, env):
+                return f"(ozd {text})"
+            raise Unsupported(f"Optional {what} used as an int without a None test")
+        if self.is_list(ty) and want == "B":
+            return f"(nonempty {text})"
+        if ty == "OIVL" and want == "B":
+            return f"(negb (is_none {text}))"        # an Interval object is always truthy
         raise Unsupported(f"cannot use {ty} as {want} {what}")
 
     def unify(self, t1, t2):
-        if t1 == t2:
+        if t1 == t2 or (self.is_list(t1) and self.is_list(t2) and self.same(t1, t2)):
             return t1
         pair = {t1, t2}
         if pair == {"NONE", "Z"} or pair == {"NONE", "OZ"} or pair == {"Z", "OZ"}:
@@ -103,9 +297,11 @@ class Tr:
 
     def expr(self, e, env, want=None):
         text, ty = self.expr0(e, env, want)
-        return self.coerce(text, ty, want, ast.unparse(e)), (want or ty)
+        return self.coerce(text, ty, want, ast.unparse(e), e, env), (want or ty)
 
     def expr0(self, e, env, want=None):
+        if self.text_exprs and ast.unparse(e) in self.text_exprs:
+            return self.text_exprs[ast.unparse(e)]
         if isinstance(e, ast.Constant):
             if e.value is None:
                 return "None", "NONE"
@@ -115,11 +311,15 @@ class Tr:
                 return "false", "B"
             if isinstance(e.value, int):
                 return (f"({e.value})" if e.value < 0 else str(e.value)), "Z"
+            if isinstance(e.value, str) and want in self.enums:
+                lit = self.enums[want][1]
+                if e.value in lit:
+                    return lit[e.value], want
             raise Unsupported(f"constant {e.value!r}")
         if isinstance(e, ast.Name):
-            if e.id in env:
+            if e.id in env and not e.id.startswith(("$", "@")):
                 return cname(e.id), env[e.id]
-            if e.id in GLOBAL_CONSTS:
+            if e.id in GLOBAL_CONSTS and e.id not in env:
                 return GLOBAL_CONSTS[e.id]
             raise Unsupported(f"unknown name {e.id}")
         if isinstance(e, ast.Attribute):
@@ -128,24 +328,36 @@ class Tr:
                     return self.selfattrs[e.attr]
                 raise Unsupported(f"self.{e.attr}")
             vt, vty = self.expr0(e.value, env)
+            if vty == "OIVL" and is_path(e.value) and self.known_some(e.value, env):
+                vt, vty = f"(oivld {vt})", "IVL"
             if vty == "IVL":
                 m = {"start": (f"(st {vt})", "OZ"), "end": (f"(en {vt})", "OZ"),
                      "finite_start": (f"(fstart {vt})", "Z"), "finite_end": (f"(fend {vt})", "Z")}
                 if e.attr in m:
                     return m[e.attr]
+            if (vty, e.attr) in self.attrs:
+                fn, ty = self.attrs[(vty, e.attr)]
+                return f"({fn} {vt})", ty
             raise Unsupported(f"attribute .{e.attr} of {vty}")
         if isinstance(e, ast.IfExp):
             c, _ = self.expr(e.test, env, "B")
-            # `x if x is not None else d`: refine x inside the taken branch
-            a, ta = self.expr0(e.body, self.refine(e.test, env, True), want)
-            b, tb = self.expr0(e.orelse, self.refine(e.test, env, False), want)
+            ref = self.refine_name(e.test)
+            if ref is not None and env.get(ref[0]) in OPT:
+                # `x if x is not None else d`: the name is rebound at the underlying type
+                n, some_in_body = ref
+                inner = dict(env)
+                inner[n] = OPT[env[n]]
+                ea, eb = (inner, env) if some_in_body else (env, inner)
+            else:
+                ea, eb = self.refine(e.test, env, True), self.refine(e.test, env, False)
+            a, ta = self.expr0(e.body, ea, want)
+            b, tb = self.expr0(e.orelse, eb, want)
             ty = self.unify(ta, tb) if want is None else want
             if ty == "NONE":
                 raise Unsupported("conditional expression of unknown option type")
-            ref = self.refine_name(e.test)
-            a = self.coerce(a, ta, ty)
-            b = self.coerce(b, tb, ty)
-            if ref is not None and env.get(ref[0]) in ("OZ", "OIVL"):
+            a = self.coerce(a, ta, ty, ast.unparse(e.body), e.body, ea)
+            b = self.coerce(b, tb, ty, ast.unparse(e.orelse), e.orelse, eb)
+            if ref is not None and env.get(ref[0]) in OPT:
                 n, some_in_body = ref
                 x = cname(n)
                 if some_in_body:
@@ -153,35 +365,9 @@ class Tr:
                 return f"(match {x} with None => {a} | Some {x} => {b} end)", ty
             return f"(if {c} then {a} else {b})", ty
         if isinstance(e, ast.Compare):
-            if len(e.ops) == 2 and all(isinstance(o, (ast.Lt, ast.LtE)) for o in e.ops):
-                # a <= x < b
-                l = ast.Compare(e.left, [e.ops[0]], [e.comparators[0]])
-                r = ast.Compare(e.comparators[0], [e.ops[1]], [e.comparators[1]])
-                return self.expr0(ast.BoolOp(ast.And(), [l, r]), env)
-            if len(e.ops) != 1:
-                raise Unsupported("chained comparison")
-            op, rhs = e.ops[0], e.comparators[0]
-            if isinstance(op, (ast.Is, ast.IsNot)):
-                if not (isinstance(rhs, ast.Constant) and rhs.value is None):
-                    raise Unsupported("is / is not with something other than None")
-                t, ty = self.expr0(e.left, env)
-                if ty in ("OZ", "OIVL"):
-                    r = f"(is_none {t})"
-                elif ty in ("Z", "IVL"):
-                    r = "false"
-                else:
-                    raise Unsupported(f"is None on {ty}")
-                return (r if isinstance(op, ast.Is) else f"(negb {r})"), "B"
-            a, _ = self.expr(e.left, env, "Z")
-            b, _ = self.expr(rhs, env, "Z")
-            sym = {ast.Lt: "<?", ast.LtE: "<=?", ast.Gt: ">?", ast.GtE: ">=?", ast.Eq: "=?"}
-            if type(op) in sym:
-                return f"({a} {sym[type(op)]} {b})", "B"
-            if isinstance(op, ast.NotEq):
-                return f"(negb ({a} =? {b}))", "B"
-            raise Unsupported(f"comparison {type(op).__name__}")
+            return self.compare(e, env)
         if isinstance(e, ast.BoolOp):
-            # `x is not None and f(x)`: the operands to the right see x refined
+            # `x is not None and f(x)`: the operands to the right see the flow fact
             parts = []
             cur = env
             for v in e.values:
@@ -196,36 +382,182 @@ class Tr:
                 return f"(- {self.expr(e.operand, env, 'Z')[0]})", "Z"
             raise Unsupported("unary operator")
         if isinstance(e, ast.BinOp):
+            sym = {ast.Add: "+", ast.Sub: "-", ast.Mult: "*", ast.FloorDiv: "/", ast.Mod: "mod"}
+            if type(e.op) not in sym:
+                raise Unsupported("binary operator")
+            if self.binops:
+                a, ta = self.expr0(e.left, env)
+                b, tb = self.expr0(e.right, env)
+                if (ta, sym[type(e.op)], tb) in self.binops:
+                    fn, ty = self.binops[(ta, sym[type(e.op)], tb)]
+                    return f"({fn} {a} {b})", ty
             a, _ = self.expr(e.left, env, "Z")
             b, _ = self.expr(e.right, env, "Z")
-            sym = {ast.Add: "+", ast.Sub: "-", ast.Mult: "*", ast.FloorDiv: "/", ast.Mod: "mod"}
-            if type(e.op) in sym:
-                return f"({a} {sym[type(e.op)]} {b})", "Z"
-            raise Unsupported("binary operator")
+            return f"({a} {sym[type(e.op)]} {b})", "Z"
         if isinstance(e, ast.Call):
             return self.call(e, env)
-        if isinstance(e, ast.GeneratorExp):
+        if isinstance(e, (ast.GeneratorExp, ast.ListComp)):
             # (elt for x in stream if cond)  ->  map (fun x => elt) (filter (fun x => cond) stream)
             if len(e.generators) != 1:
-                raise Unsupported("nested generator expression")
+                raise Unsupported("nested comprehension")
             g = e.generators[0]
             if g.is_async or not isinstance(g.target, ast.Name):
-                raise Unsupported("generator expression target")
-            src, _ = self.expr(g.iter, env, "LIST")
-            inner = dict(env)
-            inner[g.target.id] = "IVL"
+                raise Unsupported("comprehension target")
+            src, sty = self.expr0(g.iter, env)
+            if not self.is_list(sty):
+                raise Unsupported(f"comprehension over {sty}")
+            ity = self.item_of(sty)
+            inner = self.bind(env, g.target.id, ity)
             x = cname(g.target.id)
             for cond in g.ifs:
                 c, _ = self.expr(cond, inner, "B")
                 src = f"(filter (fun {x} => {c}) {src})"
             if isinstance(e.elt, ast.Name) and e.elt.id == g.target.id:
-                return src, "LIST"
-            elt, _ = self.expr(e.elt, inner, "IVL")
-            return f"(map (fun {x} => {elt}) {src})", "LIST"
+                return src, sty
+            elt, ety = self.expr0(e.elt, inner)
+            if ety in ("NONE",):
+                raise Unsupported("comprehension element type")
+            return f"(map (fun {x} => {elt}) {src})", ("LIST" if ety == "IVL" else "L:" + ety)
+        if isinstance(e, ast.List) and not e.elts:
+            if want is not None and self.is_list(want):
+                return f"(@nil {self.coq_type(self.item_of(want))})", want
+            raise Unsupported("empty list of unknown type (annotate it)")
+        if isinstance(e, ast.Subscript):
+            xs, xty = self.expr0(e.value, env)
+            if xty in self.tuples:
+                comps = self.tuples[xty]
+                if not (isinstance(e.slice, ast.Constant) and isinstance(e.slice.value, int)
+                        and 0 <= e.slice.value < len(comps)):
+                    raise Unsupported("tuple subscript that is not a constant index in range")
+                return self.tuple_item(xs, len(comps), e.slice.value), comps[e.slice.value]
+            if not self.is_list(xty):
+                raise Unsupported(f"subscript of {xty}")
+            ity = self.item_of(xty)
+            if ity not in self.defaults:
+                raise Unsupported(f"subscript of a list of {ity}")
+            i, _ = self.expr(e.slice, env, "Z")
+            return f"(py_index {self.defaults[ity]} {xs} {i})", ity
         raise Unsupported(f"expression {type(e).__name__}: {ast.unparse(e)}")
+
+    @staticmethod
+    def tuple_item(x, n, i):
+        """component i of the left-nested product (a0, a1, .., a(n-1))"""
+        t = x
+        for _ in range(n - 1 - i if i > 0 else n - 1):
+            t = f"(fst {t})"
+        return t if i == 0 else f"(snd {t})"
+
+    def compare(self, e, env):
+        if len(e.ops) == 2 and all(isinstance(o, (ast.Lt, ast.LtE)) for o in e.ops):
+            # a <= x < b
+            l = ast.Compare(e.left, [e.ops[0]], [e.comparators[0]])
+            r = ast.Compare(e.comparators[0], [e.ops[1]], [e.comparators[1]])
+            return self.expr0(ast.BoolOp(ast.And(), [l, r]), env)
+        if len(e.ops) != 1:
+            raise Unsupported("chained comparison")
+        op, rhs = e.ops[0], e.comparators[0]
+        if isinstance(op, (ast.Is, ast.IsNot)):
+            if not (isinstance(rhs, ast.Constant) and rhs.value is None):
+                raise Unsupported("is / is not with something other than None")
+            t, ty = self.expr0(e.left, env)
+            if ty in OPT or ty.startswith("O:"):
+                r = f"(is_none {t})"
+            elif ty in ("Z", "IVL"):
+                r = "false"
+            else:
+                raise Unsupported(f"is None on {ty}")
+            return (r if isinstance(op, ast.Is) else f"(negb {r})"), "B"
+        if isinstance(op, (ast.In, ast.NotIn)):
+            a, ta = self.expr0(e.left, env)
+            b, tb = self.expr0(rhs, env)
+            if not self.same(tb, "L:Z"):
+                raise Unsupported(f"membership in {tb}")
+            if ta == "Z":
+                r = f"(zmem {a} {b})"
+            elif ta == "OZ":
+                r = f"(match {a} with Some v_ => zmem v_ {b} | None => false end)"
+            else:
+                raise Unsupported(f"membership of {ta}")
+            return (r if isinstance(op, ast.In) else f"(negb {r})"), "B"
+        if isinstance(op, (ast.Eq, ast.NotEq)):
+            a, ta = self.expr0(e.left, env)
+            # an enum compared with a string literal
+            if ta in self.enums:
+                b, _ = self.expr(rhs, env, ta)
+                r = f"({self.enums[ta][0]} {a} {b})"
+                return (r if isinstance(op, ast.Eq) else f"(negb {r})"), "B"
+            b, tb = self.expr0(rhs, env)
+            if tb in self.enums:
+                a, _ = self.expr(e.left, env, tb)
+                r = f"({self.enums[tb][0]} {a} {b})"
+                return (r if isinstance(op, ast.Eq) else f"(negb {r})"), "B"
+            opt_a = ta in ("OZ", "NONE") and not (is_path(e.left) and self.known_some(e.left, env))
+            opt_b = tb in ("OZ", "NONE") and not (is_path(rhs) and self.known_some(rhs, env))
+            if opt_a or opt_b:
+                if ta not in ("Z", "OZ", "NONE") or tb not in ("Z", "OZ", "NONE"):
+                    raise Unsupported(f"equality of {ta} and {tb}")
+                a = self.coerce(a, ta, "OZ")
+                b = self.coerce(b, tb, "OZ")
+                r = f"(oZ_eqb {a} {b})"
+                return (r if isinstance(op, ast.Eq) else f"(negb {r})"), "B"
+        a, _ = self.expr(e.left, env, "Z")
+        b, _ = self.expr(rhs, env, "Z")
+        sym = {ast.Lt: "<?", ast.LtE: "<=?", ast.Gt: ">?", ast.GtE: ">=?", ast.Eq: "=?"}
+        if type(op) in sym:
+            return f"({a} {sym[type(op)]} {b})", "B"
+        if isinstance(op, ast.NotEq):
+            return f"(negb ({a} =? {b}))", "B"
+        raise Unsupported(f"comparison {type(op).__name__}")
+
+    def apply_spec(self, cs, fn, args, keywords, env, first=None):
+        """a call described by a spec entry: tuple (coq, [arg types], ret) or
+        dict(coq, args=[types], kw=[(name, type)], fixed={kw name or '**': source text}, pre=[coq text], ret)"""
+        if isinstance(cs, tuple):
+            cs = dict(coq=cs[0], args=cs[1], ret=cs[2])
+        argtys = list(cs.get("args", []))
+        kwt = list(cs.get("kw", []))
+        fixed = dict(cs.get("fixed", {}))
+        args = list(args)
+        kws = {}
+        for k in keywords:
+            key = k.arg if k.arg is not None else "**"
+            if key in kws:
+                raise Unsupported(f"repeated keyword of {fn}")
+            kws[key] = k.value
+        if cs.get("fetch"):
+            # fetch(start, end, *, reverse=False)
+            if len(args) != 2 or not set(kws) <= {"reverse"}:
+                raise Unsupported(f"call shape of {fn}")
+            args = args + [kws.pop("reverse", ast.Constant(False))]
+        if len(args) != len(argtys):
+            raise Unsupported(f"arity of {fn}")
+        if set(kws) != set(fixed) | {n for n, _ in kwt}:
+            raise Unsupported(f"keyword arguments of {fn}")
+        for key, text in fixed.items():
+            if ast.unparse(kws[key]) != text:
+                raise Unsupported(f"argument {key} of {fn} is not {text}")
+        ts = list(cs.get("pre", []))
+        if first is not None:
+            ts.append(first)
+        ts += [self.expr(a, env, t)[0] for a, t in zip(args, argtys)]
+        ts += [self.expr(kws[n], env, t)[0] for n, t in kwt]
+        return "(" + " ".join([cs["coq"]] + ts) + ")", cs["ret"]
+
+    def pick_spec(self, entry, fn, e):
+        """an entry may be a list of alternatives told apart by their keyword names"""
+        if not isinstance(entry, list):
+            return entry
+        have = {k.arg if k.arg is not None else "**" for k in e.keywords}
+        for cs in entry:
+            if isinstance(cs, dict) and have == set(cs.get("fixed", {})) | {n for n, _ in cs.get("kw", [])} \
+                    and len(e.args) == len(cs.get("args", [])):
+                return cs
+        raise Unsupported(f"call shape of {fn}")
 
     def call(self, e, env):
         fn = ast.unparse(e.func)
+        if fn in env or (isinstance(e.func, ast.Name) and cname(fn) != fn and fn in env):
+            raise Unsupported(f"call of the local {fn}")
         if fn in ("max", "min") and len(e.args) == 2 and not e.keywords:
             a, _ = self.expr(e.args[0], env, "Z")
             b, _ = self.expr(e.args[1], env, "Z")
@@ -245,21 +577,59 @@ class Tr:
             a = self.expr(kw["start"], env, "OZ")[0] if "start" in kw else f"(st {x})"
             b = self.expr(kw["end"], env, "OZ")[0] if "end" in kw else f"(en {x})"
             return f"(set_span {x} {a} {b})", "IVL"
+        if fn == "iter" and len(e.args) == 1 and not e.keywords:
+            # an iterator over a stream = the list of the items not yet consumed (see `next` in try_stmt)
+            x, ty = self.expr0(e.args[0], env)
+            if not self.is_list(ty):
+                raise Unsupported(f"iter of {ty}")
+            return x, ty
+        if fn in ("reversed", "list", "len") and len(e.args) == 1 and not e.keywords:
+            x, ty = self.expr0(e.args[0], env)
+            if not self.is_list(ty):
+                raise Unsupported(f"{fn} of {ty}")
+            if fn == "reversed":
+                return f"(rev {x})", ty
+            if fn == "list":
+                return x, ty
+            return f"(Z.of_nat (length {x}))", "Z"
+        if fn == "range" and len(e.args) == 1 and not e.keywords:
+            n, _ = self.expr(e.args[0], env, "Z")
+            return f"(zrange {n})", "L:Z"
+        if fn == "cast" and len(e.args) == 2 and not e.keywords and ast.unparse(e.args[0]) == "int":
+            # typing.cast(int, x): no run-time effect; x must be an int here
+            return self.expr(e.args[1], env, "Z")
+        if fn == "bisect.bisect_right" and len(e.args) == 2:
+            kw = {k.arg: k.value for k in e.keywords}
+            lam = kw.get("key")
+            if set(kw) != {"key"} or not isinstance(lam, ast.Lambda) or len(lam.args.args) != 1 or \
+                    lam.args.defaults or lam.args.vararg or lam.args.kwarg or lam.args.kwonlyargs:
+                raise Unsupported("bisect_right without key=lambda x: ...")
+            xs, xty = self.expr0(e.args[0], env)
+            if not self.is_list(xty):
+                raise Unsupported(f"bisect_right on {xty}")
+            v, _ = self.expr(e.args[1], env, "Z")
+            p = lam.args.args[0].arg
+            inner = self.bind(env, p, self.item_of(xty))
+            k, _ = self.expr(lam.body, inner, "Z")
+            return f"(bisect_right (fun {cname(p)} => {k}) {xs} {v})", "Z"
         if fn in self.calls:
-            cn, argtys, ret = self.calls[fn]
-            args = list(e.args)
-            kws = {k.arg: k.value for k in e.keywords}
-            if fn.endswith(".fetch"):
-                # fetch(start, end, *, reverse=False)
-                if len(args) != 2 or not set(kws) <= {"reverse"}:
-                    raise Unsupported(f"call shape of {fn}")
-                args = args + [kws.get("reverse", ast.Constant(False))]
-            elif kws:
-                raise Unsupported(f"keyword arguments of {fn}")
-            if len(args) != len(argtys):
-                raise Unsupported(f"arity of {fn}")
-            ts = [self.expr(a, env, t)[0] for a, t in zip(args, argtys)]
-            return "(" + " ".join([cn] + ts) + ")", ret
+            cs = self.pick_spec(self.calls[fn], fn, e)
+            if isinstance(cs, tuple) and fn.endswith(".fetch"):
+                return self.apply_fetch(dict(coq=cs[0], ret=cs[2]), fn, e, env)
+            if isinstance(cs, dict) and cs.get("raises"):
+                if not self.in_try:
+                    raise Unsupported(f"{fn} may raise: only as `try: return {fn}(..) except ..`")
+                self.last_raises = cs
+            return self.apply_spec(cs, fn, e.args, e.keywords, env)
+        if isinstance(e.func, ast.Attribute) and self.methods:
+            recv, rty = self.expr0(e.func.value, env)
+            if (rty, e.func.attr) in self.methods:
+                cs = self.pick_spec(self.methods[(rty, e.func.attr)], fn, e)
+                if isinstance(cs, dict) and cs.get("raises"):
+                    if not self.in_try:
+                        raise Unsupported(f"{fn} may raise: only as `try: return {fn}(..) except ..`")
+                    self.last_raises = cs
+                return self.apply_spec(cs, fn, e.args, e.keywords, env, first=recv)
         if fn in self.known:
             cn, argtys, ret = self.known[fn]
             if e.keywords or len(e.args) != len(argtys):
@@ -268,7 +638,20 @@ class Tr:
             return "(" + " ".join([cn] + ts) + ")", ret
         raise Unsupported(f"call of {fn}")
 
-    # `x is None` / `x is not None` tests on a plain name: flow refinement
+    def apply_fetch(self, cs, fn, e, env):
+        """x.fetch(start, end, *, reverse=False) for a (coq, [OZ, OZ, B], ret) entry"""
+        args = list(e.args)
+        kws = {k.arg: k.value for k in e.keywords}
+        if len(args) != 2 or not set(kws) <= {"reverse"}:
+            raise Unsupported(f"call shape of {fn}")
+        args = args + [kws.get("reverse", ast.Constant(False))]
+        argtys = list(self.calls[fn][1])
+        if len(argtys) != 3:
+            raise Unsupported(f"arity of {fn}")
+        ts = [self.expr(a, env, t)[0] for a, t in zip(args, argtys)]
+        return "(" + " ".join([cs["coq"]] + ts) + ")", cs["ret"]
+
+    # `x is None` / `x is not None` tests: flow refinement
     def refine_name(self, test):
         """-> (name, True if the name is not None when the test holds) or None"""
         if (isinstance(test, ast.Compare) and len(test.ops) == 1 and isinstance(test.left, ast.Name)
@@ -279,185 +662,731 @@ class Tr:
                 return test.left.id, False
         return None
 
+    def facts(self, test, holds):
+        """expressions known not to be None when `test` evaluates to `holds`"""
+        if isinstance(test, ast.Compare) and len(test.ops) == 1 and is_path(test.left) \
+                and isinstance(test.comparators[0], ast.Constant) and test.comparators[0].value is None:
+            if isinstance(test.ops[0], ast.IsNot) and holds:
+                return {ast.unparse(test.left)}
+            if isinstance(test.ops[0], ast.Is) and not holds:
+                return {ast.unparse(test.left)}
+            return set()
+        if isinstance(test, ast.BoolOp):
+            if (isinstance(test.op, ast.And) and holds) or (isinstance(test.op, ast.Or) and not holds):
+                out = set()
+                for v in test.values:
+                    out |= self.facts(v, holds)
+                return out
+            return set()
+        if isinstance(test, ast.UnaryOp) and isinstance(test.op, ast.Not):
+            return self.facts(test.operand, not holds)
+        if is_path(test) and holds:
+            return {ast.unparse(test)}           # a truthy value is not None
+        return set()
+
     def refine(self, test, env, holds):
-        r = self.refine_name(test)
-        if r is None:
-            return env
-        n, some_when_true = r
-        if n not in env or env[n] not in ("OZ", "OIVL"):
-            return env
-        if some_when_true == holds:
-            env = dict(env)
-            env[n] = "Z" if env[n] == "OZ" else "IVL"
-        return env
+        return self.with_nn(env, self.facts(test, holds))
 
     # ---------------------------------------------------------------- statements
+    def target_key(self, t):
+        """assignment target -> env key (python name, or "@param" for a declared state attribute)"""
+        if isinstance(t, ast.Name):
+            return t.id
+        if isinstance(t, ast.Attribute) and isinstance(t.value, ast.Name) and t.value.id == "self" \
+                and t.attr in self.selfattrs and self.selfattrs[t.attr][0] in self.state:
+            return "@" + self.selfattrs[t.attr][0]
+        raise Unsupported(f"assignment target {ast.unparse(t)}")
+
+    def effect_of(self, s):
+        """an expression statement that updates a state variable or a local list -> (key, args, update) or None"""
+        if not (isinstance(s, ast.Expr) and isinstance(s.value, ast.Call)):
+            return None
+        c = s.value
+        fn = ast.unparse(c.func)
+        if fn in self.effects:
+            ef = self.effects[fn]
+            return ("@" + ef["var"]) if ef.get("var") else None, c, ef
+        if isinstance(c.func, ast.Attribute) and c.func.attr == "append" and isinstance(c.func.value, ast.Name):
+            return c.func.value.id, c, "append"
+        return None
+
+    def assigned(self, stmts):
+        """env keys assigned anywhere in the statements, in order of first appearance"""
+        out = []
+
+        def add(k):
+            if k not in out:
+                out.append(k)
+        for sub in ast.walk(ast.Module(body=list(stmts), type_ignores=[])):
+            if isinstance(sub, ast.Assign):
+                if isinstance(sub.value, ast.Call) and ast.unparse(sub.value.func) in self.pops:
+                    add("@" + self.pops[ast.unparse(sub.value.func)]["var"])
+                for t in sub.targets:
+                    if isinstance(t, ast.Tuple):
+                        for el in t.elts:
+                            if isinstance(el, ast.Name) and el.id != "_":
+                                add(el.id)
+                    else:
+                        add(self.target_key(t))
+            elif isinstance(sub, (ast.AnnAssign, ast.AugAssign)):
+                add(self.target_key(sub.target))
+            elif isinstance(sub, ast.Try) and self.next_form(sub) is not None:
+                add(self.next_form(sub)[1])
+            elif isinstance(sub, ast.Expr) and isinstance(sub.value, ast.Call) and \
+                    isinstance(sub.value.func, ast.Name) and sub.value.func.id in self.closures:
+                for k in self.assigned(self.closures[sub.value.func.id]):
+                    add(k)
+            elif isinstance(sub, ast.Expr):
+                ef = self.effect_of(sub)
+                if ef is not None and ef[0] is not None:
+                    add(ef[0])
+                    if isinstance(ef[2], dict) and ef[2].get("result_var"):
+                        pass
+        return out
+
+    def is_pure(self, s):
+        """only assigns / updates state: no yield, continue, break, return, raise, loop, try"""
+        if isinstance(s, (ast.Assign, ast.AnnAssign, ast.AugAssign, ast.Pass)):
+            return not any(isinstance(x, (ast.Yield, ast.YieldFrom)) for x in ast.walk(s))
+        if isinstance(s, ast.Expr):
+            if isinstance(s.value, ast.Call) and isinstance(s.value.func, ast.Name) and \
+                    s.value.func.id in self.closures and not s.value.args and not s.value.keywords:
+                return all(self.is_pure(x) for x in self.closures[s.value.func.id])
+            return (isinstance(s.value, ast.Constant) and isinstance(s.value.value, str)) or \
+                self.effect_of(s) is not None
+        if isinstance(s, ast.If):
+            if ast.unparse(s.test) in self.skip_tests:
+                return False
+            return all(self.is_pure(x) for x in s.body) and all(self.is_pure(x) for x in s.orelse)
+        if isinstance(s, ast.Try) and self.next_form(s) is not None:
+            return all(self.is_pure(x) for x in s.handlers[0].body)
+        return False
+
+    def next_form(self, s):
+        """try: x = next(it)  except StopIteration: H   ->  (x, it) or None"""
+        if s.orelse or s.finalbody or len(s.handlers) != 1 or len(s.body) != 1:
+            return None
+        h, b = s.handlers[0], s.body[0]
+        if h.name is not None or not isinstance(h.type, ast.Name) or h.type.id != "StopIteration":
+            return None
+        if isinstance(b, ast.Assign) and len(b.targets) == 1 and isinstance(b.targets[0], ast.Name) and \
+                isinstance(b.value, ast.Call) and isinstance(b.value.func, ast.Name) and b.value.func.id == "next" \
+                and len(b.value.args) == 1 and not b.value.keywords and isinstance(b.value.args[0], ast.Name):
+            return b.targets[0].id, b.value.args[0].id
+        return None
+
+    def state_type(self, key):
+        if key.startswith("@"):
+            return self.genparams[key[1:]]
+        return None
+
+    def assign(self, key, text, ty, env, pad, rest, fin, ind):
+        if key.startswith("@"):
+            env2 = dict(env)
+            env2[key] = self.genparams[key[1:]]
+        else:
+            env2 = self.bind(env, key, ty)
+        return f"{pad}let {cname(key)} := {text} in\n" + self.block(rest, env2, fin, ind)
+
     def block(self, stmts, env, fin, ind):
-        """Translate a statement list; `fin(env, kind)` gives the text for leaving the block
-        (kind in end/continue/break/return)."""
+        """Translate a statement list; `fin(env, kind, value=None)` gives the text for leaving the block
+        (kind in end/continue/break/return/raise)."""
         pad = "  " * ind
         if not stmts:
             return pad + fin(env, "end")
-        s, rest = stmts[0], stmts[1:]
+        s, rest = stmts[0], list(stmts[1:])
         if isinstance(s, ast.Expr) and isinstance(s.value, ast.Constant) and isinstance(s.value.value, str):
             return self.block(rest, env, fin, ind)           # docstring
         if isinstance(s, ast.Pass):
             return self.block(rest, env, fin, ind)
+        if isinstance(s, ast.AugAssign):
+            s = ast.Assign(targets=[s.target], value=ast.BinOp(left=self.as_load(s.target), op=s.op, right=s.value))
+        if isinstance(s, ast.Assign) and isinstance(s.value, ast.Call) and ast.unparse(s.value.func) in self.pops:
+            return self.pop_assign(s, rest, env, fin, ind)
         if isinstance(s, (ast.Assign, ast.AnnAssign)):
             if isinstance(s, ast.Assign):
-                if len(s.targets) != 1 or not isinstance(s.targets[0], ast.Name):
+                if len(s.targets) != 1:
                     raise Unsupported("assignment target")
-                name, value, decl = s.targets[0].id, s.value, None
+                key, value, decl = self.target_key(s.targets[0]), s.value, None
             else:
-                if not isinstance(s.target, ast.Name) or s.value is None:
+                if s.value is None:
                     raise Unsupported("annotated assignment")
-                name, value, decl = s.target.id, s.value, ann_type(s.annotation)
-            want = decl or self.declared.get(name)
-            if want is None and isinstance(value, ast.Constant) and value.value is None and name in env:
-                # `x = None` for a variable that already has a type: the option form of that type
-                want = {"Z": "OZ", "IVL": "OIVL"}.get(env[name], env[name])
+                key, value, decl = self.target_key(s.target), s.value, ann_type(s.annotation)
+            if key.startswith("@"):
+                want = self.genparams[key[1:]]
+            else:
+                want = decl or self.declared.get(key)
+                if want is None and isinstance(value, ast.Constant) and value.value is None and key in env:
+                    # `x = None` for a variable that already has a type: the option form of that type
+                    want = SOME.get(env[key], env[key])
             t, ty = self.expr(value, env, want)
             if ty == "NONE":
-                raise Unsupported(f"type of {name} = None unknown (annotate it)")
-            env2 = dict(env)
-            env2[name] = ty
+                raise Unsupported(f"type of {key} = None unknown (annotate it)")
             if decl:
-                self.declared[name] = decl
-            return f"{pad}let {cname(name)} := {t} in\n" + self.block(rest, env2, fin, ind)
+                self.declared[key] = decl
+            return self.assign(key, t, ty, env, pad, rest, fin, ind)
+        if isinstance(s, ast.FunctionDef):
+            # a local closure without parameters whose assigned names are all nonlocal: inlined at its calls
+            a = s.args
+            if s.name not in self.inline or s.decorator_list or a.args or a.posonlyargs or a.kwonlyargs or \
+                    a.vararg or a.kwarg or self.loop_depth or s.name in env:
+                raise Unsupported(f"local function {s.name}")
+            nonlocals, body = set(), []
+            for x in s.body:
+                if isinstance(x, ast.Nonlocal):
+                    nonlocals |= set(x.names)
+                else:
+                    body.append(x)
+            for sub in ast.walk(ast.Module(body=body, type_ignores=[])):
+                if isinstance(sub, (ast.Return, ast.Yield, ast.YieldFrom, ast.FunctionDef, ast.Lambda, ast.Nonlocal,
+                                    ast.Global, ast.For, ast.While, ast.Break, ast.Continue)):
+                    raise Unsupported(f"{type(sub).__name__} in the local function {s.name}")
+            iters = {self.next_form(x)[1] for x in ast.walk(ast.Module(body=body, type_ignores=[]))
+                     if isinstance(x, ast.Try) and self.next_form(x) is not None}
+            for k in self.assigned(body):
+                if k in iters and k in env and k not in nonlocals:
+                    continue                     # next(it) consumes the enclosing iterator object
+                if k.startswith("@") or k not in nonlocals or k not in env:
+                    raise Unsupported(f"the local function {s.name} assigns {k}, which is not a nonlocal defined before it")
+            self.closures[s.name] = body
+            self.bind(env, s.name, "U")          # (only the name check)
+            return self.block(rest, env, fin, ind)
+        if isinstance(s, ast.Expr) and isinstance(s.value, ast.Call) and isinstance(s.value.func, ast.Name) and \
+                s.value.func.id in self.closures and s.value.func.id not in env:
+            if s.value.args or s.value.keywords:
+                raise Unsupported(f"call shape of {s.value.func.id}")
+            if rest and self.is_pure(s):
+                return self.join_if(s, rest, env, fin, ind)
+            return self.block(list(self.closures[s.value.func.id]) + rest, env, fin, ind)
         if isinstance(s, ast.Expr) and isinstance(s.value, ast.Yield):
+            if self.kind != "gen" or s.value.value is None:
+                raise Unsupported("yield")
             t, _ = self.expr(s.value.value, env, self.yield_type)
-            return f"{pad}let out := out ++ [{t}] in\n" + self.block(rest, env, fin, ind)
+            env2 = dict(env)
+            env2["$y"] = True
+            return f"{pad}let out := out ++ [{t}] in\n" + self.block(rest, env2, fin, ind)
+        if isinstance(s, ast.Expr) and isinstance(s.value, ast.YieldFrom):
+            if self.kind != "gen":
+                raise Unsupported("yield from")
+            t, _ = self.expr(s.value.value, env, "LIST" if self.yield_type == "IVL" else "L:" + self.yield_type)
+            env2 = dict(env)
+            env2["$y"] = True
+            return f"{pad}let out := out ++ {t} in\n" + self.block(rest, env2, fin, ind)
+        if isinstance(s, ast.Expr):
+            ef = self.effect_of(s)
+            if ef is None:
+                raise Unsupported(f"statement {ast.unparse(s)[:80]}")
+            key, c, how = ef
+            if how == "append":
+                if key not in env or not self.is_list(env[key]) or len(c.args) != 1 or c.keywords:
+                    raise Unsupported(f"statement {ast.unparse(s)[:80]}")
+                x, _ = self.expr(c.args[0], env, self.item_of(env[key]))
+                return self.assign(key, f"({cname(key)} ++ [{x}])", env[key], env, pad, rest, fin, ind)
+            if c.keywords or len(c.args) != len(how.get("args", [])):
+                raise Unsupported(f"call shape of {ast.unparse(c.func)}")
+            if how.get("raises") and how.get("must_try") and not self.in_try:
+                raise Unsupported(f"{ast.unparse(c.func)} may raise: only inside try")
+            self.in_try = False
+            ts = [self.expr(a, env, t)[0] for a, t in zip(c.args, how["args"])]     # (type-checked even if unused)
+            if key is None:
+                # a call the spec declares to have no effect on the modelled state (it may only raise)
+                return self.block(rest, env, fin, ind)
+            text = how["update"].format(*ts, var=cname(key))
+            return self.assign(key, text, self.genparams[key[1:]], env, pad, rest, fin, ind)
         if isinstance(s, ast.Continue):
             return pad + fin(env, "continue")
         if isinstance(s, ast.Break):
             return pad + fin(env, "break")
         if isinstance(s, ast.Return):
             if s.value is not None:
-                if self.ret_type is None:
-                    raise Unsupported("return with a value in a generator")
+                if self.kind != "expr":
+                    raise Unsupported("return with a value outside a value-returning function")
                 t, _ = self.expr(s.value, env, self.ret_type)
-                return pad + t
+                return pad + fin(env, "return", t)
+            if self.kind == "expr":
+                raise Unsupported("bare return in a value-returning function")
             return pad + fin(env, "return")
+        if isinstance(s, ast.Raise):
+            if s.cause is not None or s.exc is None:
+                return pad + fin(env, "raise", None if s.exc is None else "?")
+            name = s.exc.func.id if isinstance(s.exc, ast.Call) and isinstance(s.exc.func, ast.Name) else \
+                (s.exc.id if isinstance(s.exc, ast.Name) else None)
+            if name not in EXCEPTIONS:
+                raise Unsupported(f"raise {ast.unparse(s.exc)[:40]}")
+            return pad + fin(env, "raise", name)
         if isinstance(s, ast.If):
-            ref = self.refine_name(s.test)
-            if ref is not None and env.get(ref[0]) in ("OZ", "OIVL"):
-                n, some_in_body = ref
-                x = cname(n)
-                inner = dict(env)
-                inner[n] = "Z" if env[n] == "OZ" else "IVL"
-                some_blk, none_blk = (s.body, s.orelse) if some_in_body else (s.orelse, s.body)
-                a = self.block(list(some_blk) + rest, inner, fin, ind + 1)
-                b = self.block(list(none_blk) + rest, env, fin, ind + 1)
-                # inside the None branch the name still has its option type and equals None
-                return (f"{pad}match {x} with\n{pad}| Some {x} =>\n{a}\n{pad}| None =>\n{b}\n{pad}end")
-            c, _ = self.expr(s.test, env, "B")
-            a = self.block(list(s.body) + rest, self.refine(s.test, env, True), fin, ind + 1)
-            b = self.block(list(s.orelse) + rest, self.refine(s.test, env, False), fin, ind + 1)
-            return f"{pad}if {c} then\n{a}\n{pad}else\n{b}"
+            return self.if_stmt(s, rest, env, fin, ind)
+        if isinstance(s, (ast.For, ast.While)):
+            return self.loop(s, rest, env, fin, ind)
+        if isinstance(s, ast.Try):
+            if rest and self.is_pure(s):
+                return self.join_if(s, rest, env, fin, ind)
+            return self.try_stmt(s, rest, env, fin, ind)
         raise Unsupported(f"statement {type(s).__name__}: {ast.unparse(s)[:80]}")
+
+    def pop_assign(self, s, rest, env, fin, ind):
+        """x = pop(container) / a, b, c = pop(container): the value the spec gives, then the update of the
+        state variable that holds the container"""
+        pad = "  " * ind
+        c = s.value
+        ps = self.pops[ast.unparse(c.func)]
+        if c.keywords or len(c.args) != 1 or ast.unparse(c.args[0]) != ps["arg"] or len(s.targets) != 1:
+            raise Unsupported(f"call shape of {ast.unparse(c.func)}")
+        key = "@" + ps["var"]
+        if key not in env:
+            raise Unsupported(f"{ps['var']} is not a state variable")
+        val = ps["result"].format(var=ps["var"])
+        upd = ps["update"].format(var=ps["var"])
+        t = s.targets[0]
+        env2 = dict(env)
+        if isinstance(t, ast.Name):
+            env2 = self.bind(env2, t.id, ps["ret"])
+            head = f"{pad}let {cname(t.id)} := {val} in\n"
+        elif isinstance(t, ast.Tuple) and ps["ret"] in self.tuples and len(t.elts) == len(self.tuples[ps["ret"]]) \
+                and all(isinstance(el, ast.Name) for el in t.elts):
+            names = []
+            for el, ty in zip(t.elts, self.tuples[ps["ret"]]):
+                if el.id == "_":
+                    names.append("_")
+                else:
+                    if el.id in names:
+                        raise Unsupported("repeated name in a tuple target")
+                    env2 = self.bind(env2, el.id, ty)
+                    names.append(cname(el.id))
+            head = f"{pad}let '({', '.join(names)}) := {val} in\n"
+        else:
+            raise Unsupported(f"assignment target {ast.unparse(t)}")
+        return head + f"{pad}let {ps['var']} := {upd} in\n" + self.block(rest, env2, fin, ind)
+
+    @staticmethod
+    def as_load(t):
+        if isinstance(t, ast.Name):
+            return ast.Name(id=t.id, ctx=ast.Load())
+        if isinstance(t, ast.Attribute):
+            return ast.Attribute(value=t.value, attr=t.attr, ctx=ast.Load())
+        raise Unsupported("augmented assignment target")
+
+    def if_stmt(self, s, rest, env, fin, ind):
+        pad = "  " * ind
+        test_text = ast.unparse(s.test)
+        if test_text in self.skip_tests:
+            # a branch the spec declares untranslated: reaching it is an explicit RSkip
+            if not self.res or self.plain:
+                raise Unsupported("skip_branches needs a res result")
+            c, _ = self.expr(s.test, env, "B")
+            b = self.block(list(s.orelse) + rest, self.refine(s.test, env, False), fin, ind + 1)
+            return f"{pad}if {c} then\n{pad}  RSkip\n{pad}else\n{b}"
+        if rest and self.is_pure(s):
+            return self.join_if(s, rest, env, fin, ind)
+        ref = self.refine_name(s.test)
+        if ref is not None and env.get(ref[0]) in OPT:
+            n, some_in_body = ref
+            x = cname(n)
+            inner = dict(env)
+            inner[n] = OPT[env[n]]
+            some_blk, none_blk = (s.body, s.orelse) if some_in_body else (s.orelse, s.body)
+            a = self.block(list(some_blk) + rest, inner, fin, ind + 1)
+            b = self.block(list(none_blk) + rest, env, fin, ind + 1)
+            # inside the None branch the name still has its option type and equals None
+            return f"{pad}match {x} with\n{pad}| Some {x} =>\n{a}\n{pad}| None =>\n{b}\n{pad}end"
+        c, _ = self.expr(s.test, env, "B")
+        a = self.block(list(s.body) + rest, self.refine(s.test, env, True), fin, ind + 1)
+        b = self.block(list(s.orelse) + rest, self.refine(s.test, env, False), fin, ind + 1)
+        return f"{pad}if {c} then\n{a}\n{pad}else\n{b}"
+
+    def join_if(self, s, rest, env, fin, ind):
+        """an `if` whose branches only assign, followed by more statements: bind the joined values"""
+        pad = "  " * ind
+        leaves = []
+
+        def probe(e2, k, v=None):
+            if k != "end":
+                raise Unsupported(f"{k} in an assignment-only branch")
+            leaves.append(e2)
+            return "?"
+        self.block([s], env, probe, 0)
+        keys = [k for k in self.assigned([s]) if all(k in e2 for e2 in leaves)]
+        tys = {}
+        for k in keys:
+            if k.startswith("@"):
+                tys[k] = self.genparams[k[1:]]
+                continue
+            ty = self.declared.get(k)
+            if ty is None:
+                ty = leaves[0][k]
+                for e2 in leaves[1:]:
+                    ty = self.unify(ty, e2[k])
+            if ty == "NONE":
+                raise Unsupported(f"type of {k} unknown at the join")
+            tys[k] = ty
+
+        def join(e2, k, v=None):
+            items = [self.coerce(cname(x), e2[x], tys[x], f"(joined variable {x})") for x in keys]
+            return items[0] if len(items) == 1 else "(" + ", ".join(items) + ")"
+        env2 = dict(env)
+        for k in self.assigned([s]):
+            if not k.startswith("@"):
+                env2 = self.kill(env2, k)
+                if k not in keys:
+                    env2.pop(k, None)          # maybe unbound after the `if`: not in scope
+        for k in keys:
+            if k.startswith("@"):
+                env2[k] = tys[k]
+            else:
+                env2 = self.bind(env2, k, tys[k])
+        if not keys:
+            return self.block(rest, env2, fin, ind)
+        t = self.block([s], env, join, ind + 1)
+        pat = cname(keys[0]) if len(keys) == 1 else "'(" + ", ".join(cname(k) for k in keys) + ")"
+        return f"{pad}let {pat} :=\n{t} in\n" + self.block(rest, env2, fin, ind)
+
+    def try_stmt(self, s, rest, env, fin, ind):
+        """try: return f(..)  except E: H   with f declared to raise E (its Coq form returns an option)"""
+        pad = "  " * ind
+        nf = self.next_form(s)
+        if nf is not None:
+            x, it = nf
+            if it not in env or not self.is_list(env[it]):
+                raise Unsupported(f"next of {it}")
+            ity = self.item_of(env[it])
+            want = self.declared.get(x)
+            val = self.coerce("v_", ity, want, f"(next({it}))")
+            env_ok = self.bind(self.bind(env, x, want or ity), it, env[it])
+            ok = self.block(rest, env_ok, fin, ind + 2)
+            hb = self.block(list(s.handlers[0].body) + rest, env, fin, ind + 1)
+            return (f"{pad}match {cname(it)} with\n{pad}| v_ :: it_ =>\n{pad}  let {cname(x)} := {val} in\n"
+                    f"{pad}  let {cname(it)} := it_ in\n{ok}\n{pad}| [] =>\n{hb}\n{pad}end")
+        if s.orelse or s.finalbody or len(s.handlers) != 1 or len(s.body) != 1:
+            raise Unsupported("try shape")
+        h = s.handlers[0]
+        if h.name is not None or not isinstance(h.type, ast.Name) or h.type.id not in EXCEPTIONS:
+            raise Unsupported("except clause")
+        b = s.body[0]
+        ef = self.effect_of(b)
+        if ef is not None and isinstance(ef[2], dict) and ef[2].get("raises"):
+            # try: <effect that raises E when its precondition fails>  except E: H
+            key, c, how = ef
+            exc, present = how["raises"]
+            if exc != h.type.id or key is None or c.keywords or len(c.args) != len(how["args"]):
+                raise Unsupported("try around an effect that is not declared to raise this exception")
+            ts = [self.expr(a, env, t)[0] for a, t in zip(c.args, how["args"])]
+            test = present.format(*ts, var=cname(key))
+            self.in_try = True
+            try:
+                ok = self.block([b] + rest, env, fin, ind + 1)
+            finally:
+                self.in_try = False
+            hb = self.block(list(h.body) + rest, env, fin, ind + 1)
+            return f"{pad}if {test} then\n{ok}\n{pad}else\n{hb}"
+        if not (isinstance(b, ast.Return) and isinstance(b.value, ast.Call) and self.kind == "expr"):
+            raise Unsupported("try body other than `return f(..)`")
+        self.in_try = True
+        try:
+            t, ty = self.call(b.value, env)
+        finally:
+            self.in_try = False
+        cs = self.last_raises
+        if cs is None or cs.get("raises") != h.type.id or ty != SOME.get(self.ret_type, "O:" + self.ret_type):
+            raise Unsupported("try around a call that is not declared to raise this exception")
+
+        def fin_h(e2, k, v=None):
+            if k == "raise" and v is None:
+                return fin(e2, "raise", h.type.id)         # bare `raise` re-raises
+            return fin(e2, k, v)
+        ok = fin(env, "return", "v_")
+        hb = self.block(list(h.body) + rest, env, fin_h, ind + 1)
+        return f"{pad}match {t} with\n{pad}| Some v_ =>\n{pad}  {ok}\n{pad}| None =>\n{hb}\n{pad}end"
+
+    # ---------------------------------------------------------------- loops
+    def inner_while(self, s, rest, env, fin, ind):
+        """a `while` directly in the body of a generator's `for` (run_for_o): sub_while"""
+        if s.orelse:
+            raise Unsupported("loop with else")
+        pad, p1, p2 = "  " * ind, "  " * (ind + 1), "  " * (ind + 2)
+        nil = f"@nil {self.out_type}"
+        state = [k for k in self.assigned(s.body) if k in env]
+        state_ty = {k: (self.genparams[k[1:]] if k.startswith("@") else self.declared.get(k, env[k])) for k in state}
+
+        def pack(e2):
+            items = [self.coerce(cname(v), e2[v], state_ty[v], f"(state variable {v})") for v in state]
+            return "tt" if not items else (items[0] if len(items) == 1 else "(" + ", ".join(items) + ")")
+        names = [cname(v) for v in state]
+        unpack = "_" if not names else (names[0] if len(names) == 1 else "'(" + ", ".join(names) + ")")
+        env_loop = dict(env)
+        for v in state:
+            env_loop = self.kill(env_loop, v) if not v.startswith("@") else env_loop
+            env_loop[v] = state_ty[v]
+        cond, _ = self.expr(s.test, env_loop, "B")
+        env_body = self.refine(s.test, env_loop, True)
+        env_body["$y"] = False
+
+        def fin_in(e2, k, v=None):
+            if k in ("end", "continue"):
+                return f"(out, {pack(e2)}, true)"
+            if k == "break":
+                return f"(out, {pack(e2)}, false)"
+            raise Unsupported(f"{k} inside a nested loop")
+        self.loop_depth += 1
+        try:
+            body_t = self.block(s.body, env_body, fin_in, ind + 3)
+        finally:
+            self.loop_depth -= 1
+        env_after = dict(env_loop)
+        env_after["$y"] = True
+        rest_t = self.block(rest, env_after, fin, ind + 1)
+        return (f"{pad}match sub_while fuel\n{p2}(fun {unpack} => {cond})\n{p2}(fun {unpack} =>\n{p2}  let out := {nil} in\n"
+                f"{body_t})\n{p2}{pack(env)} with\n{pad}| None => None\n"
+                f"{pad}| Some (out1_, {unpack.lstrip(chr(39))}) =>\n{p1}let out := out ++ out1_ in\n{rest_t}\n{pad}end")
+
+    def loop(self, s, rest, env, fin, ind):
+        if self.loop_depth == 1 and self.opt_body and isinstance(s, ast.While) and self.kind == "gen":
+            return self.inner_while(s, rest, env, fin, ind)
+        if self.loop_depth > 0:
+            raise Unsupported("nested loop")
+        if s.orelse:
+            raise Unsupported("loop with else")
+        is_for = isinstance(s, ast.For)
+        if is_for and not isinstance(s.target, ast.Name):
+            raise Unsupported("tuple loop target")
+        if not is_for and (not self.res or self.plain):
+            raise Unsupported("while loop in a function without a res result")
+        pad = "  " * ind
+        nil = f"@nil {self.out_type}"
+        gen = self.kind == "gen"
+        assigned = self.assigned(s.body)
+        state = [k for k in assigned if k in env]
+        if is_for and s.target.id in state:
+            raise Unsupported("loop target is a variable that exists before the loop")
+        state_ty = {k: (self.genparams[k[1:]] if k.startswith("@") else self.declared.get(k, env[k])) for k in state}
+
+        def pack(e2):
+            items = [self.coerce(cname(v), e2[v], state_ty[v], f"(state variable {v})") for v in state]
+            return "tt" if not items else (items[0] if len(items) == 1 else "(" + ", ".join(items) + ")")
+
+        names = [cname(v) for v in state]
+        unpack = "_" if not names else (names[0] if len(names) == 1 else "'(" + ", ".join(names) + ")")
+        env_loop = dict(env)
+        for v in state:
+            env_loop = self.kill(env_loop, v) if not v.startswith("@") else env_loop
+            env_loop[v] = state_ty[v]
+        env_loop["$y"] = False
+        # facts about loop-carried variables do not survive an iteration; the others do
+        if is_for:
+            stream, sty = self.expr0(s.iter, env)
+            if not self.is_list(sty):
+                raise Unsupported(f"loop over {sty}")
+            ity = self.item_of(sty)
+            env_body = self.bind(env_loop, s.target.id, ity)
+            head = f"(fun {unpack} {cname(s.target.id)} =>"
+        else:
+            cond, _ = self.expr(s.test, env_loop, "B")
+            env_body = self.refine(s.test, env_loop, True)
+            head = f"(fun {unpack} =>"
+        p2 = "  " * (ind + 2)
+        p1 = "  " * (ind + 1)
+        if gen:
+            if not is_for and env.get("$y"):
+                raise Unsupported("while loop after a yield")
+            opt = is_for and any(isinstance(x, ast.While) for b in s.body for x in ast.walk(b))
+            if opt and (not self.res or self.plain or env.get("$y")):
+                raise Unsupported("a loop nested in a loop needs a res result")
+
+            def fin_body(e2, k, v=None):
+                ctl = {"end": "Cont", "continue": "Cont", "break": "Brk", "return": "Ret"}.get(k)
+                if ctl is None:
+                    raise Unsupported(f"{k} inside a loop")
+                return f"Some (out, {pack(e2)}, {ctl})" if opt else f"(out, {pack(e2)}, {ctl})"
+
+            def fin_post(e2, k, v=None):
+                if k in ("end", "return"):
+                    return "out"
+                raise Unsupported(f"{k} after the loop")
+            self.loop_depth += 1
+            self.plain += 1
+            self.opt_body = opt
+            try:
+                body_t = self.block(s.body, env_body, fin_body, ind + 2)
+            finally:
+                self.loop_depth -= 1
+                self.opt_body = False
+            try:
+                # (variables assigned only inside the loop body are not in scope after the loop: a use
+                #  there is an unknown name, i.e. Unsupported)
+                post_t = self.block(rest, env_loop, fin_post, ind + 2)
+            finally:
+                self.plain -= 1
+            fns = (f"{p1}{head}\n{p2}let out := {nil} in\n{body_t})\n"
+                   f"{p1}(fun {unpack} =>\n{p2}let out := {nil} in\n{post_t})\n")
+            if opt:
+                return f"{pad}run_for_o\n{fns}{p1}{pack(env)} {stream}"
+            if is_for:
+                text = f"run_for\n{fns}{p1}{pack(env)} {stream}"
+                if env.get("$y"):
+                    text = f"out ++ {text}"
+                if self.res and not self.plain:
+                    return f"{pad}RDone ({text})"
+                return pad + text
+            return f"{pad}run_while fuel\n{p1}(fun {unpack} => {cond})\n{fns}{p1}{pack(env)}"
+        # value-returning functions and procedures
+        def fin_body(e2, k, v=None):
+            if k in ("end", "continue"):
+                return f"(SCont {pack(e2)})"
+            if k == "break":
+                return f"(SBrk {pack(e2)})"
+            return f"(SRet {fin(e2, k, v)})"
+        self.loop_depth += 1
+        try:
+            body_t = self.block(s.body, env_body, fin_body, ind + 2)
+        finally:
+            self.loop_depth -= 1
+        post_t = self.block(rest, env_loop, fin, ind + 2)
+        fns = f"{p1}{head}\n{body_t})\n{p1}(fun {unpack} =>\n{post_t})\n"
+        if is_for:
+            return f"{pad}iter_for\n{fns}{p1}{pack(env)} {stream}"
+        return f"{pad}iter_while fuel\n{p1}(fun {unpack} => {cond})\n{fns}{p1}{pack(env)}"
 
     # ---------------------------------------------------------------- functions
     def function(self, fdef: ast.FunctionDef):
         spec = self.spec
         self.declared = dict(spec.get("locals", {}))
         self.yield_type = spec.get("yield_type", "IVL")
-        kind = spec["kind"]
-        env = {}
-        params = []
+        self.in_try = False
+        self.last_raises = None
+        kind = self.kind
+        a = fdef.args
+        if a.vararg or a.kwarg:
+            raise Unsupported("*args / **kwargs parameters")
+        pyargs = [x.arg for x in a.posonlyargs + a.args + a.kwonlyargs]
+        env = {"$nn": frozenset(), "$y": False}
+        params = [f"{{{v} : Type}}" for v in spec.get("tyvars", [])]
+        body = list(fdef.body)
+        if spec.get("stop_after_loop"):
+            # only the statements up to and including the first loop are translated
+            idx = [i for i, s in enumerate(body) if isinstance(s, (ast.For, ast.While))]
+            if not idx:
+                raise Unsupported("no loop")
+            body = body[:idx[0] + 1]
+        has_while = self.has_while(body)
+        if has_while:
+            if not self.res:
+                raise Unsupported("while loop in a function without a res result")
+            params.append("(fuel : nat)")
+        self.genparams = {}
         for pname, pty in spec["params"]:
-            if isinstance(pty, str) and pty in COQ_TYPE:
-                env[pname] = pty
-                params.append(f"({cname(pname)} : {COQ_TYPE[pty]})")
-            else:                      # a function-typed parameter given as Coq text
+            if self.is_type(pty):
+                params.append(f"({cname(pname)} : {self.coq_type(pty)})")
+                if pname in pyargs:
+                    env[pname] = pty
+                else:
+                    self.genparams[pname] = pty      # never visible as a Python name
+            else:                                    # a function-typed parameter given as Coq text
                 params.append(f"({pname} : {pty})")
-        # the Python parameters the spec does not mention must not be used
+                self.genparams[pname] = None
+        if has_while:
+            self.genparams["fuel"] = None
+        for st_ in self.state:
+            if not self.is_type(self.genparams.get(st_)):
+                raise Unsupported(f"state variable {st_} is not a typed generated parameter")
+            env["@" + st_] = self.genparams[st_]
+        self.spec_names = set()
+        for cs in list(self.calls.values()) + list(self.methods.values()):
+            for c in (cs if isinstance(cs, list) else [cs]):
+                self.spec_names.add((c[0] if isinstance(c, tuple) else c["coq"]).split()[0])
+        for fn_, _t in list(self.attrs.values()) + list(self.binops.values()):
+            self.spec_names.add(fn_)
+        for eqb, lits in self.enums.values():
+            self.spec_names.add(eqb)
+            self.spec_names |= set(lits.values())
         name = spec["name"]
-        body = [s for s in fdef.body]
-        if kind == "expr":
-            self.ret_type = spec["ret"]
-
-            def fin(env_, k):
-                raise Unsupported("function falls off its end without returning a value")
-            text = self.block(body, env, fin, 1)
-            return f"Definition {name} {' '.join(params)} : {COQ_TYPE[self.ret_type]} :=\n{text}.\n"
-        self.ret_type = None
-        # generator: prologue, at most one for loop, epilogue
-        loops = [i for i, s in enumerate(body) if isinstance(s, ast.For)]
-        if len(loops) > 1:
-            raise Unsupported("more than one loop")
         for s in body:
             for sub in ast.walk(s):
-                if isinstance(sub, (ast.While, ast.Try, ast.With, ast.Raise, ast.FunctionDef, ast.Lambda,
-                                    ast.YieldFrom, ast.ListComp, ast.GeneratorExp)) or \
-                        (isinstance(sub, ast.For) and sub is not s):
+                if isinstance(sub, (ast.With, ast.AsyncFunctionDef, ast.ClassDef, ast.Global,
+                                    ast.Delete, ast.Await, ast.NamedExpr)):
                     raise Unsupported(f"construct {type(sub).__name__}")
-        out_list = f"list {self.out_type}"
-        if not loops:
-            def fin0(env_, k):
+                if isinstance(sub, (ast.Raise, ast.Try)) and not self.res:
+                    raise Unsupported(f"{type(sub).__name__} in a function without a res result")
+        wrap = (lambda t: f"(RDone {t})") if self.res else (lambda t: t)
+
+        def raise_text(e2, v):
+            if not self.res or self.plain:
+                raise Unsupported("raise in a function (or a loop) without a res result")
+            if v is None or v == "?":
+                raise Unsupported("raise without a known exception class")
+            if e2.get("$y"):
+                raise Unsupported("raise after a yield")
+            return f"(RRaise {v})"
+
+        if kind == "expr":
+            self.ret_type = spec["ret"]
+            rty = self.coq_type(self.ret_type)
+
+            def fin(e2, k, v=None):
+                if k == "return":
+                    return wrap(v)
+                if k == "raise":
+                    return raise_text(e2, v)
+                raise Unsupported("function falls off its end without returning a value" if k == "end"
+                                  else f"{k} outside a loop")
+            text = self.block(body, env, fin, 1)
+            full = f"res {rty if ' ' not in rty else '(' + rty + ')'}" if self.res else rty
+            return f"Definition {name} {' '.join(params)} : {full} :=\n{text}.\n"
+        self.ret_type = None
+        if kind == "proc":
+            if not self.state:
+                raise Unsupported("a proc needs state variables")
+            tup = " * ".join(self.coq_type(self.genparams[v]) for v in self.state)
+            tup = f"({tup})" if (" " in tup) else tup
+
+            def fin(e2, k, v=None):
                 if k in ("end", "return"):
-                    return "out"
+                    items = [v2 for v2 in self.state]
+                    return wrap(items[0] if len(items) == 1 else "(" + ", ".join(items) + ")")
+                if k == "raise":
+                    return raise_text(e2, v)
                 raise Unsupported(f"{k} outside a loop")
-            text = self.block(body, env, fin0, 1)
-            return (f"Definition {name} {' '.join(params)} : {out_list} :=\n  let out := @nil {self.out_type} in\n"
-                    f"{text}.\n")
-        li = loops[0]
-        pro, loop, epi = body[:li], body[li], body[li + 1:]
-        if loop.orelse or not isinstance(loop.target, ast.Name):
-            raise Unsupported("for/else or tuple loop target")
-        assigned = set()
-        for sub in ast.walk(ast.Module(body=loop.body, type_ignores=[])):
-            if isinstance(sub, ast.Assign):
-                for t in sub.targets:
-                    if isinstance(t, ast.Name):
-                        assigned.add(t.id)
-            elif isinstance(sub, ast.AnnAssign) and isinstance(sub.target, ast.Name):
-                assigned.add(sub.target.id)
-        holder = {}
+            text = self.block(body, env, fin, 1)
+            full = f"res {tup}" if self.res else tup
+            return f"Definition {name} {' '.join(params)} : {full} :=\n{text}.\n"
+        # generator
+        out_list = f"list {self.out_type}"
 
-        def fin_pro(env_, k):
-            if k != "end":
-                raise Unsupported(f"{k} before the loop")
-            state = [v for v in env_ if v in assigned and v not in dict(spec["params"])]
-            state_ty = {}
-            for v in state:
-                ty = self.declared.get(v, env_[v])
-                state_ty[v] = ty
-            holder["state"] = state
-            holder["state_ty"] = state_ty
-            stream, _ = self.expr(loop.iter, env_, "LIST") if self.item_type == "IVL" else \
-                (self.expr0(loop.iter, env_)[0], None)
+        def fin(e2, k, v=None):
+            if k in ("end", "return"):
+                return "out" if self.plain else wrap("out")
+            if k == "raise":
+                return raise_text(e2, v)
+            raise Unsupported(f"{k} outside a loop")
+        text = self.block(body, env, fin, 1)
+        full = f"res ({out_list})" if self.res else out_list
+        has_loop = any(isinstance(s, (ast.For, ast.While)) for s in body)
+        head = "" if (has_loop and not self.uses_out_before_loop(body)) else f"  let out := @nil {self.out_type} in\n"
+        return f"Definition {name} {' '.join(params)} : {full} :=\n{head}{text}.\n"
 
-            def pack(e2):
-                items = [self.coerce(cname(v), e2[v], state_ty[v], f"(state variable {v})") for v in state]
-                return "tt" if not items else (items[0] if len(items) == 1 else "(" + ", ".join(items) + ")")
+    def has_while(self, stmts):
+        """is there a `while` outside the branches the spec declares untranslated?"""
+        for s in stmts:
+            if isinstance(s, ast.While):
+                return True
+            if isinstance(s, ast.If):
+                if ast.unparse(s.test) not in self.skip_tests and self.has_while(s.body):
+                    return True
+                if self.has_while(s.orelse):
+                    return True
+            elif isinstance(s, (ast.For, ast.Try)):
+                if any(isinstance(x, ast.While) for x in ast.walk(s)):
+                    return True
+        return False
 
-            def unpack():
-                names = [cname(v) for v in state]
-                return "_" if not names else (names[0] if len(names) == 1 else "'(" + ", ".join(names) + ")")
-
-            def fin_body(e2, k):
-                ctl = {"end": "Cont", "continue": "Cont", "break": "Brk", "return": "Ret"}[k]
-                return f"(out, {pack(e2)}, {ctl})"
-
-            def fin_epi(e2, k):
-                if k in ("end", "return"):
-                    return "out"
-                raise Unsupported(f"{k} after the loop")
-            env_loop = dict(env_)
-            for v in state:
-                env_loop[v] = state_ty[v]
-            env_item = dict(env_loop)
-            env_item[loop.target.id] = self.item_type
-            body_t = self.block(loop.body, env_item, fin_body, 3)
-            # (variables assigned only inside the loop body are not in scope after the loop: a use
-            #  there is an unknown name, i.e. Unsupported)
-            epi_t = self.block(epi, env_loop, fin_epi, 3)
-            nil = f"@nil {self.out_type}"
-            return (f"run_for\n    (fun {unpack()} {cname(loop.target.id)} =>\n      let out := {nil} in\n{body_t})\n"
-                    f"    (fun {unpack()} =>\n      let out := {nil} in\n{epi_t})\n"
-                    f"    {pack(env_)} {stream}")
-        text = self.block(pro, env, fin_pro, 1)
-        return f"Definition {name} {' '.join(params)} : {out_list} :=\n{text}.\n"
+    @staticmethod
+    def uses_out_before_loop(body):
+        """does anything outside the (single, top-level) loop mention `out`?"""
+        for s in body:
+            if isinstance(s, (ast.For, ast.While)):
+                return False
+            for sub in ast.walk(s):
+                if isinstance(sub, (ast.Yield, ast.YieldFrom, ast.For, ast.While, ast.Return)):
+                    return True
+        return False
 
 
 def find_function(tree, cls, func):
@@ -469,23 +1398,23 @@ def find_function(tree, cls, func):
                 break
         else:
             raise Unsupported(f"class {cls} not found")
-    for n in scope:
-        if isinstance(n, ast.FunctionDef) and n.name == func:
-            return n
-    raise Unsupported(f"function {cls + '.' if cls else ''}{func} not found")
+    found = [n for n in scope if isinstance(n, ast.FunctionDef) and n.name == func]
+    if len(found) == 1:
+        return found[0]
+    raise Unsupported(f"function {cls + '.' if cls else ''}{func} " + ("not found" if not found else "defined twice"))
 
 
 HEADER = """(* GENERATED on every run by harness/translate/pysrc.py from the Python sources of the tree
    under test — do not edit.  Each definition is the translation of one function's source text;
-   Proofs/GenEq.v proves it equal to the hand-written model for all inputs. *)
+   Proofs/GenEq*.v prove it equal to the hand-written model for all inputs. *)
 From CG Require Import Model.Loop.
 
 """
 
 
-def translate_all(repo: Path, specs):
+def translate_all(repo: Path, specs, header=HEADER):
     """-> (coq text, {name: error})"""
-    out = [HEADER]
+    out = [header]
     errors = {}
     known = {}
     trees = {}
@@ -498,8 +1427,13 @@ def translate_all(repo: Path, specs):
             fdef = find_function(trees[path], spec.get("cls"), spec["func"])
             tr = Tr(spec, known)
             text = tr.function(fdef)
+            # a definition that mentions a generated definition which could not be translated is not
+            # emitted either (Gen/Source.v must always compile: only the proofs about what is missing break)
+            for bad in errors:
+                if re.search(r"(?<![A-Za-z0-9_'])" + re.escape(bad) + r"(?![A-Za-z0-9_'])", text):
+                    raise Unsupported(f"uses {bad}, which was not translated")
             out.append(f"(* {spec['file']}: {(spec.get('cls') + '.') if spec.get('cls') else ''}{spec['func']} *)\n" + text)
-            if spec["kind"] == "expr":
+            if spec["kind"] == "expr" and not spec.get("res"):
                 argtys = [t for _, t in spec["params"]]
                 if all(isinstance(t, str) and t in COQ_TYPE for t in argtys):
                     known[spec.get("pyname", spec["func"])] = (name, argtys, spec["ret"])
